@@ -69,7 +69,7 @@ func drawC02(rt *rapid.T, p *Plan, tier string) *Plan {
 	for i := 0; i < nt; i++ {
 		p.Ticks = append(p.Ticks, rapid.IntRange(0, len(p.Blocks)-1).Draw(rt, "tick"))
 	}
-	p.Election = max(0, rapid.IntRange(0, 6).Draw(rt, "election")-3)
+	p.Election = drawElection(rt)
 	p.Tape = drawTape(rt, 256)
 	return p
 }
